@@ -62,6 +62,12 @@
 (*                      before) => response carries Connection: close      *)
 (*   HooksStarted       a shutdown of a running server starts every hook   *)
 (*                      (OkEnd; liveness HooksStartedL)                    *)
+(*                      and when Shutdown returns nil every hook has       *)
+(*                      STARTED (OkReturn): the hooks are triggered        *)
+(*                      concurrently, a slow or stuck hook cannot starve   *)
+(*                      the others.  Timing assumption (see Fire): a       *)
+(*                      goroutine that can start does so within the exit   *)
+(*                      wait time.                                         *)
 (*   HooksAwaited       nil return before the exit wait time => every hook *)
 (*                      has ended                                          *)
 (*   NoAcceptAfterClose a connection dialled after a nil return is never   *)
@@ -95,6 +101,8 @@ CONSTANTS Conns,          \* connection ids
           CasLoserErrors, \* TRUE: the caller that loses the CAS reports an error (the repaired design);
                           \* FALSE: as written, `if !CAS { return }` returns nil
           ExitCheckAfterHandler, \* TRUE as in the code; FALSE: negative configuration (check before the handler)
+          HooksConcurrent, \* TRUE as in the code and its documentation ("triggered simultaneously"): one goroutine per
+                          \* hook; FALSE: negative configuration, the hooks are called one after the other
           CountAtAccept   \* TRUE as in the code: updateActive(1) right after Accept(); FALSE: negative configuration
                           \* (counted only when the connection's goroutine starts)
 
@@ -213,6 +221,7 @@ OkReturn(k, err, elapsed, wait, allHooks) ==
     /\ elapsed <= wait + Slack(wait)                                            \* BoundedReturn
     /\ oCall[k] = "mustErr" => err # "nil"                                      \* SecondShutdownErrors, NotRunningErrors
     /\ err = "nil" => \A j \in DOMAIN oRet : oRet[j] # "nil"                    \* SecondShutdownErrors
+    /\ err = "nil" => oHS = allHooks                                            \* HooksStarted (triggered concurrently)
     /\ (err = "nil" /\ elapsed < wait) =>
            /\ oHE = allHooks                                                    \* HooksAwaited
            /\ \A c \in oPreReq : oExit[c] = oEnt[c]                            \* InFlightAwaited
@@ -402,7 +411,10 @@ EmitReturn(k) == /\ pc[k] = "retpending"
                  /\ UNCHANGED <<status, listening, active, conn, avail, sent, cc, rflag, outq, hook, spawned, deadline, ret, early, flipBy>>
 
 ---- (* hooks and timer *)
-HookStart(h) == /\ spawned /\ hook[h] = "notRun"
+\* executeOnShutdownHooks: `go func(index int) { defer wg.Done(); engine.OnShutdown[index](ctx) }(i)` for every hook
+CanStart(h) == /\ spawned /\ hook[h] = "notRun"
+               /\ HooksConcurrent \/ \A g \in Hooks : hook[g] # "running"
+HookStart(h) == /\ CanStart(h)
                 /\ hook' = [hook EXCEPT ![h] = "running"]
                 /\ ObsHookStart(h) /\ Flag(OkHookStart(h, Hooks), "HookStart")
                 /\ UNCHANGED <<status, listening, active, conn, avail, sent, cc, rflag, outq, spawned, deadline, pc, ret, early, flipBy>>
@@ -412,7 +424,9 @@ HookEnd(h) == /\ hook[h] = "running" /\ (h \in BeyondHooks => deadline = "fired"
               /\ ObsHookEnd(h) /\ Flag(OkHookEnd(h), "HookEnd")
               /\ UNCHANGED <<status, listening, active, conn, avail, sent, cc, rflag, outq, spawned, deadline, pc, ret, early, flipBy>>
 
-Fire == /\ deadline = "armed" /\ deadline' = "fired"
+\* timing assumption: the exit wait time is long compared with the start latency of a goroutine -- the deadline does
+\* not fire while a hook that can start has not started
+Fire == /\ deadline = "armed" /\ \A h \in Hooks : ~CanStart(h) /\ deadline' = "fired"
         /\ UNCHANGED <<status, listening, active, conn, avail, sent, cc, rflag, outq, hook, spawned, pc, ret, early, flipBy, ovars, oBad>>
 
 ConnStep(c) == Spawn(c) \/ StartRead(c) \/ RecvDone(c) \/ ReadFlag(c) \/ EmitExit(c) \/ ExitCheck(c) \/ WriteDone(c)
@@ -457,6 +471,7 @@ ObligationsHold == oBad = {}
 SecondShutdownErrors == \A k \in Callers : (pc[k] \in {"retpending", "returned"} /\ k # flipBy) => ret[k] # "nil"
 NotRunningErrors == \A k \in Callers : (pc[k] \in {"retpending", "returned"} /\ oCall[k] = "mustErr") => ret[k] # "nil"
 NoAcceptAfterClose == \A c \in Conns : oLate[c] => conn[c] \in {None, "refused"}
+HooksStartedAtReturn == \A k \in Callers : (pc[k] \in {"retpending", "returned"} /\ k = flipBy) => \A h \in Hooks : hook[h] # "notRun"
 HooksAwaited == \A k \in Callers : (pc[k] \in {"retpending", "returned"} /\ k = flipBy /\ early[k]) => \A h \in Hooks : hook[h] = "done"
 InFlightAwaited == \A k \in Callers : (pc[k] \in {"retpending", "returned"} /\ k = flipBy /\ early[k]) => active = 0
 \* ... and then nothing that was accepted is still to be served (the listener is closed: nothing new is accepted)
